@@ -2,6 +2,7 @@ package props
 
 import (
 	"fmt"
+	"go/constant"
 	"go/token"
 	"go/types"
 	"math/big"
@@ -140,13 +141,29 @@ func c18ImplicitViewBox(c *core.Check) {
 		r.Anchor("svg.svg.draw")
 		return
 	}
+	var perc int64
+	percOK := false
+	if pk := p.ByPath["svg"]; pk != nil {
+		if cst, ok := pk.Types.Scope().Lookup("Perc").(*types.Const); ok {
+			perc, percOK = constant.Int64Val(cst.Val())
+		}
+	}
+	if !percOK {
+		r.Anchor("svg.Perc")
+		return
+	}
 	var atoms []ssa.Value
 	for _, a := range core.CondAtoms(fn) {
 		bo, ok := a.(*ssa.BinOp)
 		if !ok || (bo.Op != token.NEQ && bo.Op != token.EQL) {
 			continue
 		}
-		if core.IsFieldNamed(bo.X, "U") || core.IsFieldNamed(bo.Y, "U") {
+		// a unit compared with the percentage unit (not with 0, the unit of a missing attribute)
+		isPerc := func(v ssa.Value) bool {
+			n, ok := core.ConstInt(v)
+			return ok && percOK && n == perc
+		}
+		if (core.IsFieldNamed(bo.X, "U") && isPerc(bo.Y)) || (core.IsFieldNamed(bo.Y, "U") && isPerc(bo.X)) {
 			atoms = append(atoms, a)
 		}
 	}
